@@ -200,6 +200,8 @@ partial def bddAct (j : Json) : P Bdd.Act := do
   | [.str "send", n, ps] => return .send (← n.getStr?) (← kvs ps)
   | [.str "wait", n] => return .wait (← n.getInt?)
   | [.str "repeat", a, n] => return .repeat_ (← bddAct a) (← n.getNat?)
+  | [.str "reproduce", _, .null] => return .unknownScenario
+  | [.str "reproduce", _, as] => return .seq (← (← arr as).mapM bddAct)
   | _ => throw s!"bad act {j.compress}"
 
 def bddAssertion (j : Json) : P Bdd.Assertion := do
